@@ -467,6 +467,7 @@ func C17(ctx *core.Ctx, r *core.Report) {
 	c17LessComparesWholeKey(ctx, r)
 	c17IndexNilOnError(ctx, r)
 	c18ExistingEntryIsNotEmpty(ctx, r)
+	c16LiteralExact(ctx, r)
 }
 
 // c17TupleBound: in val.CompareVals every index into the second tuple must be
